@@ -444,8 +444,12 @@ class Harness:
             ticks.append(name)
             return "#%d" % counter[0]
 
+        depth = [0]
+
         def section(sec, key, body_fn, filt):
             """run a (possibly cached) section; returns its text"""
+            if sec is not None and sec["cached"] and not enabled:
+                self.probe("cache-disabled-run")
             if sec is not None and sec["cached"] and enabled:
                 ent = updates.get((ti, key))
                 edge = False
@@ -456,7 +460,19 @@ class Harness:
                 if ent is not None:
                     self.probe("replayed")
                     return ent.text
-                text = body_fn()
+                if sec.get("key") in ("arg", "ctx"):
+                    self.probe("dynamic-key")
+                if (ti, key) in m.store:
+                    self.probe("expired-recreated")
+                if (ti, key) in m.last_invalidate:
+                    self.probe("invalidated-recreated")
+                if depth[0]:
+                    self.probe("nested-cached-inside-cached")
+                depth[0] += 1
+                try:
+                    text = body_fn()
+                finally:
+                    depth[0] -= 1
                 if filt:
                     text = f(text)
                 to = effective_args(t, sec).get("timeout")
